@@ -4,7 +4,8 @@
    every program, colouring, alias relation, instruction semantics and machine state; the check
    tools/props/c06.py evaluates the validator on every frame the real allocator produces. *)
 From Coq Require Import ZArith List Bool.
-From PV Require Import Spec.RegAllocSpec Model.RegAllocCheck Proofs.C06_regalloc Proofs.C06_compact Proofs.C06_spill.
+From PV Require Import Spec.RegAllocSpec Spec.SpillSpec Model.RegAllocCheck Model.SpillCheck
+  Model.RegAllocHelpers Proofs.C06_helpers Proofs.C06_regalloc Proofs.C06_compact Proofs.C06_spill Proofs.C06_spillprog.
 Import ListNotations.
 Open Scope Z_scope.
 
@@ -121,6 +122,73 @@ Theorem c06_spill_block_sound_partial :
   spill_rel t t2 slot (exec (src_alias isph al0) J g i rf) rf2 mem2.
 Proof. exact spill_block_sound. Qed.
 Print Assumptions c06_spill_block_sound_partial.
+
+(* WHOLE-PROGRAM spill validation (one rewrite_program round).  xp = rewritten program (inserted
+   instructions marked, the slot loads/stores among them abstract XLoad/XStore), P = program before the
+   round, facts = certificate.  If check_spill accepts then, for every instruction semantics, alias
+   effect and related initial states, xp simulates P: after n steps of xp there are m <= n steps of P
+   (inserted instructions take no step of P) such that P is at the corresponding point, every register
+   that is neither spilled nor fresh is equal, every certified fact holds (in particular: the slot of a
+   live spilled register holds its value, or the fresh temporary does while a store is pending), and at
+   every original instruction xp reads exactly the values P reads.  Outside the model: that the target's
+   generated load/store instructions implement XLoad/XStore of that slot (and their address operands). *)
+Theorem c06_check_spill_sound : forall physl special xp marks P facts,
+  check_spill physl special xp marks P facts = true ->
+  forall (al0 : reg -> reg -> bool) (S : semantics) (junk : nat -> junk_t) rf' mem rf,
+  spill_sim (keepf special) (facts_at facts 0) rf' mem rf ->
+  forall n, exists m, (m <= n)%nat /\
+    let al := src_alias (isphys physl) al0 in
+    let xs := xrun al junk S xp n (0%nat, rf', mem) in
+    let ps := run al (reindex_junkb junk marks) (reindex_semb S marks) (map Some P) m (0%nat, rf) in
+    fst ps = cntb marks (fst (fst xs)) /\
+    spill_sim (keepf special) (facts_at facts (fst (fst xs))) (snd (fst xs)) (snd xs) (snd ps) /\
+    (forall i', nth_error xp (fst (fst xs)) = Some (XI i') ->
+                nth (fst (fst xs)) marks false = false ->
+                reads (map Some P) ps = Some (map (snd (fst xs)) (i_uses i'))).
+Proof. exact check_spill_sound. Qed.
+Print Assumptions c06_check_spill_sound.
+
+(* slots of distinct spilled nodes are pairwise disjoint byte ranges of positive size *)
+Theorem c06_slots_disjoint_sound : forall l, slots_disjoint l = true -> ForallOrdPairs slot_apart l.
+Proof. exact slots_disjoint_sound. Qed.
+Print Assumptions c06_slots_disjoint_sound.
+
+(* hand models (tie H) of the allocator's helper algorithms, compared with the real algorithms' results
+   per frame by the check.  FlowGraph.calculate_liveness: whenever the in-place iteration terminates,
+   the sets satisfy the dataflow equations at every node (as sets) *)
+Theorem c06_liveness_model_fixpoint : forall nodes ks fuel st st',
+  liveness_iter nodes ks fuel st = Some st' ->
+  forall k, In k ks ->
+  forall x,
+    (In x (fst (st' k)) <-> In x (n_gen (nodes k)) \/ (In x (snd (st' k)) /\ ~ In x (n_kill (nodes k))))
+    /\ (In x (snd (st' k)) <-> exists s, In s (n_succ (nodes k)) /\ In x (fst (st' s))).
+Proof. exact liveness_model_fixpoint. Qed.
+Print Assumptions c06_liveness_model_fixpoint.
+
+(* InterferenceGraph.calculate_interference: the graph contains every pair the validator requires
+   (a register written by an instruction vs. a different register live across it) *)
+Theorem c06_interference_complete : forall prog live pc i d v,
+  nth_error prog pc = Some i ->
+  In d (i_defs i ++ i_clob i) -> In v (live_out_of live pc) -> v <> d ->
+  has_edge (interference_model prog live) d v = true.
+Proof. exact interference_complete. Qed.
+Print Assumptions c06_interference_complete.
+
+(* non-vacuity of the spill checker: t=1000 spilled to slot 0; "1001 <- load; use 1001; def 1002; store" *)
+Example c06_spill_nonvacuous :
+  check_spill [5] [1000; 1001; 1002]
+    [XLoad 1001 0; XI (mkInstr [1001; 5] [1002] [] false []); XStore 0 1002;
+     XI (mkInstr [] [] [] false [0%nat])]
+    [true; false; true; false]
+    [mkInstr [1000; 5] [1000] [] false []; mkInstr [] [] [] false [0%nat]]
+    [[(LSlot 0, 1000)]; [(LReg 1001, 1000); (LSlot 0, 1000)]; [(LReg 1002, 1000)]; [(LSlot 0, 1000)]] = true
+  /\ check_spill [5] [1000; 1001; 1002]
+    [XLoad 1001 0; XI (mkInstr [1001; 5] [1002] [] false []);
+     XI (mkInstr [] [] [] false [0%nat])]
+    [true; false; false]
+    [mkInstr [1000; 5] [1000] [] false []; mkInstr [] [] [] false [0%nat]]
+    [[(LSlot 0, 1000)]; [(LReg 1001, 1000); (LSlot 0, 1000)]; [(LSlot 0, 1000)]] = false.
+Proof. split; vm_compute; reflexivity. Qed.
 
 (* non-vacuity: a frame with a coalesced copy, an aliasing pair (0 ~ 1) and a loop is accepted;
    the same frame with the loop-carried register put on the aliasing register is rejected *)
